@@ -282,6 +282,8 @@ def handle (w : List String) : String :=
   -- bc op a(4 rationals) [b(4 rationals)]: ring operations of Bicomplex on Gaussian rationals
   | ["bc", "neg", a1, a2, a3, a4] => bcStr (bcOf [a1, a2, a3, a4]).neg
   | ["bc", "conj", a1, a2, a3, a4] => bcStr (bcOf [a1, a2, a3, a4]).conjugate
+  | ["bc", "inv", a1, a2, a3, a4] => bcStr (bcOf [a1, a2, a3, a4]).inverse
+  | ["bc", "powint", n, a1, a2, a3, a4] => bcStr ((bcOf [a1, a2, a3, a4]).pow_integer (parseInt n))
   | ["bc", op, a1, a2, a3, a4, b1, b2, b3, b4] =>
     let a := bcOf [a1, a2, a3, a4]; let b := bcOf [b1, b2, b3, b4]
     if op == "add" then bcStr (a.add b) else if op == "sub" then bcStr (a.sub b)
